@@ -16,8 +16,8 @@ from . import c13
 
 OPS = {1: 'add_track', 2: 'tracks_append', 3: 'tracks_remove', 4: 'msg_append', 5: 'msg_insert',
        6: 'msg_delete', 7: 'msg_time', 8: 'set_tpb', 9: 'set_type', 10: 'iterate', 11: 'length',
-       12: 'merged_track', 13: 'save', 14: 'play'}
-ALL_OPS = '{"add_track", "tracks_append", "tracks_remove", "msg_append", "msg_insert", "msg_delete", "msg_time", "set_tpb", "set_type", "iterate", "length", "merged_track", "play", "save"}'
+       12: 'merged_track', 13: 'save', 14: 'play', 15: 'msg_attr', 16: 'msg_replace', 17: 'msg_swap'}
+ALL_OPS = '{"add_track", "tracks_append", "tracks_remove", "msg_append", "msg_insert", "msg_delete", "msg_time", "msg_attr", "msg_replace", "msg_swap", "set_tpb", "set_type", "iterate", "length", "merged_track", "play", "save"}'
 
 
 def cfg(maxops, memo, opset, emit=True):
@@ -37,7 +37,7 @@ def mk(dt, ident):
         return mido.MetaMessage('end_of_track', time=dt)
     if ident % 3 == 0:
         return mido.MetaMessage('set_tempo', tempo=250000 + ident, time=dt)
-    return mido.Message('note_on', note=ident, time=dt)
+    return mido.Message('note_on', channel=ident // 128, note=ident % 128, time=dt)
 
 
 def ident_of(m):
@@ -46,7 +46,7 @@ def ident_of(m):
     if m.type == 'set_tempo':
         return m.tempo - 250000
     if m.type == 'note_on':
-        return m.note
+        return m.note + 128 * m.channel
     return -1
 
 
@@ -127,6 +127,17 @@ def replay_history(hist):
             del mid.tracks[a - 1][b - 1]
         elif op == 'msg_time':
             mid.tracks[a - 1][b - 1].time = c
+        elif op == 'msg_attr':
+            m = mid.tracks[a - 1][b - 1]
+            if m.type == 'set_tempo':
+                m.tempo = 250000 + c
+            else:
+                m.note, m.channel = c % 128, c // 128
+        elif op == 'msg_replace':
+            mid.tracks[a - 1][b - 1] = mk(mid.tracks[a - 1][b - 1].time, c)
+        elif op == 'msg_swap':
+            x, y = mid.tracks[a - 1][b - 1], mid.tracks[a - 1][b]
+            x.time, y.time = y.time, x.time
         elif op == 'set_tpb':
             mid.ticks_per_beat = a
         elif op == 'set_type':
@@ -134,7 +145,9 @@ def replay_history(hist):
         # the live contents are what the specification says they are
         live = [[(m.time, ident_of(m)) for m in t] for t in mid.tracks]
         if live != tracks or mid.type != ftype or mid.ticks_per_beat != tpb:
-            return 'driver-desync', 'step %d (%s): live contents %r, specification %r' % (n, op, live, tracks)
+            key = 'observation-changed-contents/' + op if op in ('iterate', 'length', 'merged_track', 'save', 'play') \
+                else 'edit-effect/' + op
+            return key, 'step %d (%s): live contents %r, specification %r' % (n, op, live, tracks)
         if op in ('iterate', 'length', 'merged_track', 'save', 'play'):
             got = observe(mid, op)
             ref = observe(fresh(ftype, tpb, tracks), op)
@@ -190,7 +203,7 @@ def run(ctx):
     ctx.note('stale_memo_counterexample_found', 1)
     plans = [(5, ALL_OPS)] if thorough else [(4, ALL_OPS)]
     if thorough:
-        plans.append((6, '{"tracks_append", "msg_append", "msg_time", "msg_delete", "iterate", "length", "save"}'))
+        plans.append((6, '{"tracks_append", "msg_append", "msg_time", "msg_attr", "msg_delete", "iterate", "length", "save"}'))
     for maxops, opset in plans:
         pr = core.ParallelReplay(ctx, worker, batch_size=500)
         res = core.run_tlc('MidiFileObj', cfg(maxops, 'none', opset), on_emit=pr.push, raw_ints=True,
